@@ -476,6 +476,10 @@ def r_keep(prog, tier):
                     verdict = None
                     detail = 'a condition on the children of the parent guards the move (`%s`) but not in a form ' \
                              'this rule can evaluate' % mention[-1][:60]
+                elif f.fq == 'trees.delete_terminal' and not cfg.nodes[d.node].loops:
+                    verdict = False
+                    detail = 'the removal is not part of a loop that climbs while the parent becomes childless: a ' \
+                             'constituent left without tokens stays in the tree'
                 elif f.fq in ('trees.delete_terminal', 'transform.root_attach'):
                     verdict = None
                     detail = 'premise of the table entry not recognised in this shape'
